@@ -18,7 +18,7 @@ import (
 func init() { register("C19", checkC19) }
 
 func checkC19(c *core.Ctx) {
-	c.Explainf("C19 (decided clauses: ordering and error discipline of the two main packages; crash points such as power loss between write and rename are NOT decided). R1: no call that truncates a file (os.Create, os.WriteFile, os.OpenFile with O_TRUNC) is applied to the user's target: the only accepted way to replace the -o file or the file being formatted is to write a temporary created with os.CreateTemp and os.Rename it over the target once every fallible step (parse, generate, format, write, close) has succeeded; every function that renames must remove its temporary on its failing paths. R2: the errors of Write/Close on the temporary are returned, none is dropped or deferred away. R3 (typed, not by variable name): main calls os.Exit with a non-zero constant exactly on the arm where the error returned by run() is not nil; in every function of the main packages that returns an error, each `if v != nil` arm over an error variable ends in a return of a non-nil error, or records the failure in a variable that is written only inside such arms and is turned into an error return later (the accumulating idiom) — an error that is printed and then overwritten by the next file is reported as swallowed. R4 (reported as a fact): whether bebopfmt re-parses its output before replacing the file. R5: the formatter's sibling-agreement rules of C16 (the third sentence of the property rests on them). R6: the buffer collecting the formatted text is fresh storage, not a re-slice of the input. R6b: what (*bytes.Buffer).Bytes() returns in the main packages is used at once (a call argument); it is not kept in a composite literal, field, element or package-level variable while it is a view of a buffer that lives on or is reset for re-use.")
+	c.Explainf("C19 (decided clauses: ordering and error discipline of the two main packages; crash points such as power loss between write and rename are NOT decided). R1: no call that truncates a file (os.Create, os.WriteFile, os.OpenFile with O_TRUNC) is applied to the user's target: the only accepted way to replace the -o file or the file being formatted is to write a temporary created with os.CreateTemp and os.Rename it over the target once every fallible step (parse, generate, format, write, close) has succeeded; every function that renames must remove its temporary on its failing paths. R2: the errors of Write/Close on the temporary are returned, none is dropped or deferred away. R3 (typed, not by variable name): main calls os.Exit with a non-zero constant exactly on the arm where the error returned by run() is not nil; in every function of the main packages that returns an error, each `if v != nil` arm over an error variable ends in a return of a non-nil error, or records the failure in a variable that is written only inside such arms and is turned into an error return later (the accumulating idiom) — an error that is printed and then overwritten by the next file is reported as swallowed. R4 (reported as a fact): whether bebopfmt re-parses its output before replacing the file. R5: the formatter's sibling-agreement rules of C16 (the third sentence of the property rests on them). R6: the buffer collecting the formatted text is fresh storage, not a re-slice of the input. R6b: what (*bytes.Buffer).Bytes() returns in the main packages is used at once (a call argument); it is not kept in a composite literal, field, element or package-level variable while it is a view of a buffer that lives on or is reset for re-use. R6c: a package-level buffer handed to the library to write into is Reset by a top-level statement of the same function ahead of that call.")
 	p := loadRepo(c)
 	if p == nil {
 		return
@@ -354,6 +354,97 @@ func checkC19(c *core.Ctx) {
 		}
 	}
 	c.Count("buffer_views_taken", nBytes)
+	// R6c: a buffer that outlives the call (package-level) and is handed to the
+	// library to write into is emptied before that, on every way there: a Reset
+	// after use is skipped by every early return in between, and the next file
+	// is then appended to what the last one left
+	for _, pk := range p.All {
+		if !strings.HasPrefix(pk.PkgPath, load.Mod+"/main/") {
+			continue
+		}
+		info := pk.TypesInfo
+		var fds []*ast.FuncDecl
+		for fn, fd := range p.AllDecls() {
+			if p.Owner(fn) == pk && fd.Body != nil {
+				fds = append(fds, fd)
+			}
+		}
+		sort.Slice(fds, func(i, j int) bool { return fds[i].Pos() < fds[j].Pos() })
+		for _, fd := range fds {
+			sharedBuf := func(e ast.Expr) *types.Var {
+				e = ast.Unparen(e)
+				if u, ok := e.(*ast.UnaryExpr); ok && u.Op == token.AND {
+					e = ast.Unparen(u.X)
+				}
+				id, ok := e.(*ast.Ident)
+				if !ok {
+					return nil
+				}
+				v, ok := info.ObjectOf(id).(*types.Var)
+				if !ok || !strings.HasSuffix(strings.TrimPrefix(v.Type().String(), "*"), "bytes.Buffer") {
+					return nil
+				}
+				if v.Parent() == pk.Types.Scope() {
+					return v
+				}
+				// a local alias of a package-level buffer
+				var root *types.Var
+				ast.Inspect(fd.Body, func(k ast.Node) bool {
+					if as, ok := k.(*ast.AssignStmt); ok && len(as.Lhs) == len(as.Rhs) {
+						for i, l := range as.Lhs {
+							if lid, ok := ast.Unparen(l).(*ast.Ident); ok && info.ObjectOf(lid) == types.Object(v) {
+								r := ast.Unparen(as.Rhs[i])
+								if u, ok := r.(*ast.UnaryExpr); ok && u.Op == token.AND {
+									r = ast.Unparen(u.X)
+								}
+								if rid, ok := r.(*ast.Ident); ok {
+									if rv, ok := info.ObjectOf(rid).(*types.Var); ok && rv.Parent() == pk.Types.Scope() {
+										root = rv
+									}
+								}
+							}
+						}
+					}
+					return true
+				})
+				return root
+			}
+			ast.Inspect(fd.Body, func(n ast.Node) bool {
+				call, ok := n.(*ast.CallExpr)
+				if !ok {
+					return true
+				}
+				callee := load.Callee(info, call)
+				if callee == nil || callee.Pkg() == nil || callee.Pkg().Path() != load.Mod {
+					return true
+				}
+				for _, a := range call.Args {
+					buf := sharedBuf(a)
+					if buf == nil {
+						continue
+					}
+					// a Reset of that buffer among the top-level statements of the
+					// function ahead of the call
+					reset := false
+					for _, st := range fd.Body.List {
+						if st.Pos() >= call.Pos() {
+							break
+						}
+						if es, ok := st.(*ast.ExprStmt); ok {
+							if rc, ok := es.X.(*ast.CallExpr); ok {
+								if sel, ok := ast.Unparen(rc.Fun).(*ast.SelectorExpr); ok && sel.Sel.Name == "Reset" && sharedBuf(sel.X) == buf {
+									reset = true
+								}
+							}
+						}
+					}
+					c.Check("R6c", "a buffer shared between files is emptied before "+fd.Name.Name+" fills it", p.Pos(call.Pos()), reset,
+						load.FuncName(callee)+" writes into the package-level buffer "+buf.Name()+", which no statement on the way from the start of "+fd.Name.Name+" empties: whatever an earlier file left there (a Reset after use is skipped by every early return) is written out again in front of this file's text")
+				}
+				return true
+			})
+		}
+	}
 	// R4 fact
 	if pk := p.Pkgs[load.Mod+"/main/bebopfmt"]; pk != nil {
 		if fd := p.FuncDecl(pk, "formatFile"); fd != nil {
